@@ -42,6 +42,12 @@ def run(ctx: Ctx):
         """node evaluates to 'some key of the substitution map occurs in the matrix'"""
         if mapv is None:
             return False
+        # a flag that caches the predicate (`unresolved = has_intermediates(rhs)`, refreshed in the loop): judged by
+        # what is assigned to it
+        if isinstance(node, ast.Name) and node.id not in f.params:
+            vals = [n.value for n in ast.walk(f.node) if isinstance(n, ast.Assign) and any(isinstance(t, ast.Name) and t.id == node.id for t in n.targets)]
+            if vals and not any(isinstance(v_, ast.Name) and v_.id == node.id for v_ in vals):
+                return all(left_pred(v_) for v_ in vals)
         env = {p_: ("sym", p_) for p_ in f.params}
         for k_, x_ in env20.items():
             if isinstance(x_, tuple) and x_ and x_[0] == "fn":
@@ -101,6 +107,16 @@ def run(ctx: Ctx):
     else:
         mv_ = _av._unwrap_seq(mapv)
         okm = False
+        if mv_[0] == "list" and mv_[1] and all(i[0] == "spread" and i[1][0] == "comp" for i in mv_[1]):
+            # filled by one loop per kind: every part is symbol -> expr, the parts together cover both kinds
+            srcs = []
+            okparts = True
+            for i in mv_[1]:
+                cp_ = i[1]
+                bv_ = ("bv", cp_[1])
+                okparts = okparts and cp_[3] == (("kv", ("attr", bv_, "symbol"), ("attr", bv_, "expr")),) and not cp_[4]
+                srcs.append(_av.show(cp_[2]).replace("self.ode.", "ode."))
+            okm = okparts and sorted(srcs) == ["ode.intermediates", "ode.state_derivatives"]
         if mv_[0] == "comp" and len(mv_[3]) == 1 and not mv_[4]:
             bv = ("bv", mv_[1])
             src = _av.show(mv_[2]).replace("self.ode.", "ode.")
